@@ -35,3 +35,51 @@ package db
 //@   watch bytes(META.LastConfigHash) != HASH
 //@   replay TestVerifReplayNeedsUpdate
 //@   bounded TestVerifBoundedNeedsUpdate
+//@   abstracts res == nu(S, strat, alias, deref(CFG))
+
+// IsConsistent counts the breadth-first closure of the root list under GetSubscribers and compares it with NumEntities (C18).
+//@ func IsConsistent returns (res)
+//@   props C18
+//@   uses plan.smt2
+//@   let S = DbState(backend)
+//@   ensures @C18 res == (bfs(S, entry(1, arr(todo)), entry(1, len(todo)), 0) == dbNum(S))
+//@   loop 1
+//@     invariant numEntries == i && 0 <= i && i <= len(todo)
+//@     invariant @C18 bfs(S, arr(todo), len(todo), i) == bfs(S, entry(arr(todo)), entry(len(todo)), 0)
+
+// PlanBulkUpdate equals the recursion plan() of /verif/specs/plan.smt2: breadth-first over the forest, an entity is
+// planned iff its issuer is planned in this run or needsUpdate holds, Replace iff a certificate exists (C11, C01 order).
+//@ func validateAndMerge returns (c, err)
+//@   props C08 C09 C03 C04
+//@   uses plan.smt2 validate.smt2 merge.smt2
+//@   let S = DbState(backend)
+//@   let CFG = typed(dbCfg(S, alias), "*gopki/generator/config.CertificateContent")
+//@   let PROF = typed(dbProfile(S, CFG.Profile), "*gopki/generator/config.CertificateProfile")
+//@   let PA = old(seq(PROF.SubjectAttributes.Attributes))
+//@   let SJ = old(seq(CFG.Subject))
+//@   let VALID = (PROF.SubjectAttributes.Attributes == nil || (resFrom(PA, 0) && (PROF.SubjectAttributes.AllowOther || sub(PA, SJ, 0, 0)) && req(PA, SJ, 0)))
+//@   let NAMED = len(CFG.Profile) != 0
+//@   requires dbCfg(S, alias) != 0 ==> (forall k in [0, len(CFG.Subject)) :: len(CFG.Subject[k]) >= 1)
+//@   ghostret INIT St = callghost("gopki/generator/config.Merge", 1, "INIT")
+//@   ensures err == nil ==> c != nil && dbCfgErr(S, alias) == #nilAny && dbCfg(S, alias) != 0
+//@   ensures err != nil ==> c == nil
+//@   ensures err == nil && !NAMED ==> c == dbCfg(S, alias)
+//@   ensures @C09 err == nil && NAMED ==> dbProfile(S, CFG.Profile) != 0 && VALID
+//@   ensures @C09 dbCfg(S, alias) != 0 && NAMED && dbProfile(S, CFG.Profile) != 0 && !VALID ==> err != nil
+//@   ensures @C03 err == nil ==> c.Subject == old(CFG.Subject) && c.SerialNumber == old(CFG.SerialNumber) && c.IssuerUniqueId == old(CFG.IssuerUniqueId) && c.SubjectUniqueId == old(CFG.SubjectUniqueId) && c.Issuer == old(CFG.Issuer) && c.Alias == old(CFG.Alias)
+//@   ensures @C04 err == nil && NAMED ==> c.Validity == (if !old(CFG.Validity.IsSet) && old(PROF.Validity.IsSet) then old(PROF.Validity) else old(CFG.Validity))
+//@   ensures @C08 called("gopki/generator/config.Merge", 1) ==> err == nil && NAMED ==> vlen(sH(INIT)) == 0 && vlen(sO(INIT)) == 0 && vlen(sOut(INIT)) == 0 && seq(c.Extensions) == tail(old(seq(CFG.Extensions)), sO(run(old(seq(PROF.Extensions)), old(seq(CFG.Extensions)), 0, INIT)), 0, sOut(run(old(seq(PROF.Extensions)), old(seq(CFG.Extensions)), 0, INIT)))
+//@   abstracts err == vmErr(S, alias) && (err == nil ==> c != nil && deref(c) == vmVal(S, alias))
+
+//@ func PlanBulkUpdate returns (res, err)
+//@   props C11 C01 C09
+//@   uses plan.smt2
+//@   let S = DbState(backend)
+//@   requires forall a string :: dbCfg(S, a) != 0 ==> (forall k in [0, len(typed(dbCfg(S, a), "*gopki/generator/config.CertificateContent").Subject)) :: len(typed(dbCfg(S, a), "*gopki/generator/config.CertificateContent").Subject[k]) >= 1)
+//@   let PLAN = plan(S, strat, entry(1, arr(todo)), entry(1, len(todo)), 0, entry(1, seq(changes)), entry(1, keys(updatedAliases)))
+//@   ensures @C11,C01 err == nil ==> pOk(PLAN) && seq(res) == pCh(PLAN)
+//@   ensures @C11,C09 err != nil ==> !pOk(PLAN)
+//@   loop 1
+//@     invariant 0 <= i && i <= len(todo)
+//@     invariant updatedAliases != nil
+//@     invariant @C11,C01,C09 plan(S, strat, arr(todo), len(todo), i, seq(changes), keys(updatedAliases)) == plan(S, strat, entry(arr(todo)), entry(len(todo)), 0, entry(seq(changes)), entry(keys(updatedAliases)))
